@@ -63,6 +63,8 @@ type swEvent struct {
 	Obs  swObs    `json:"obs"`
 }
 
+var swCalls int
+
 func runSW(env *Env, id string, c swCase) {
 	ev := swEvent{ID: id, S1: c.S1, S2: c.S2, Sch: c.Sch, Algo: "sw"}
 	ev.Obs = swObs{R1: []int{}, R2: []int{}, After1: []int{}, After2: []int{}}
@@ -84,6 +86,9 @@ func runSW(env *Env, id string, c swCase) {
 		a.SetGapOpenScore(float64(c.Sch.Open) / c.Sch.unit())
 		a.SetGapExtendScore(float64(c.Sch.Ext) / c.Sch.unit())
 		_, err := a.Alignment()
+		if swCalls++; err == nil && swCalls%3 == 0 {
+			_, err = a.Alignment() // asked a second time for its result: the same answer, counts included
+		}
 		ev.Obs.After1, ev.Obs.After2 = b2i(q1.SequenceChar()), b2i(q2.SequenceChar())
 		if err != nil {
 			ev.Kind, ev.Msg = "err", err.Error()
